@@ -142,8 +142,7 @@ def r15_1(ctx, g):
             names = [n.id for n in ast.walk(ast.parse(src, mode="eval")) if isinstance(n, ast.Name)]
             done = True
             for nm in names:
-                ds = [st for st in walk_stmts(rn.node.body) if isinstance(st, ast.Assign) and norm(st.targets[0]) == nm and st.lineno <= l.lineno and not any(x is st for x in ast.walk(l))]
-                ds = [st for st in ds if (st.lineno, st.col_offset) < (l.lineno, l.col_offset)] or ds
+                ds = sorted([st for st in walk_stmts(rn.node.body) if isinstance(st, ast.Assign) and norm(st.targets[0]) == nm and rn.before(st, l) and not any(x is st for x in ast.walk(l))], key=rn.pos)
                 if ds and nm not in rn.params:
                     import re as _re
 
@@ -354,6 +353,7 @@ def r15_5(ctx, g):
     repo = ctx.repo
     f = repo.func("gaftools.gfa", "GFA.biccs", "R15.5")
     ctx.analysed_func(f)
+    f = _nf(repo, f)  # private helpers of the class (static or not) are read in place
     everything = list(ast.walk(f.node))  # including nested helper functions: they operate on the same stack
     nested = {n.name: n for n in everything if isinstance(n, ast.FunctionDef) and n is not f.node}
     stack = None
@@ -430,8 +430,12 @@ def r15_5(ctx, g):
         nxt = blk[i + 1] if i + 1 < len(blk) else None
         if not (isinstance(nxt, ast.Assign) and isinstance(nxt.targets[0], ast.Subscript) and norm(nxt.targets[0].value) == loc and norm(nxt.targets[0].slice) == norm(ps.value.args[0]) and norm(nxt.value) == f"len({stack}) - 1"):
             rec_ok = False
+    if not bad and rec_ok and n_cut < 2:
+        raise AnalysisError("R15.5", f.where(), f"cannot find the two places where the edge stack is truncated at a recorded position (found {n_cut})")
     ctx.check(not bad and n_cut >= 2 and rec_ok, "R15.5", f.where(), "biccs' edge stack is only pushed to (each push recording its position) and truncated at the recorded position of the (parent, child) tree edge: a component is everything pushed since that edge", key_of(f, f"edge-stack:{bad}:{n_cut}:{rec_ok}"), pushes=n_push, cuts=n_cut, other_mutations=bad)
     comps = [a for a in everything if isinstance(a, ast.Assign) and isinstance(a.value, ast.Call) and a.value.args and isinstance(a.value.args[0], ast.Subscript) and norm(a.value.args[0].value) == stack]
+    if not comps:
+        raise AnalysisError("R15.5", f.where(), "cannot find where a component is built from a slice of the edge stack")
     ok = len(comps) >= 1 and all(isinstance(a.value.args[0].slice, ast.Slice) and a.value.args[0].slice.upper is None for a in comps)
     ctx.check(ok, "R15.5", f.where(), "each reported component is the node set of the stack slice that is then truncated", key_of(f, f"component-slices:{len(comps)}"))
 
@@ -518,19 +522,30 @@ def r15_8(ctx, g):
     dfs = repo.func("gaftools.gfa", "GFA.dfs", "R15.8")
     for f in (ac, fc, dfs):
         ctx.analysed_func(f)
+    from ..core import desugar_comprehensions, inline_access_aliases
+
+    # comprehension / extend(generator) spellings are read as loops, aliases of a node object as the node
+    ac, fc, dfs = (inline_access_aliases(desugar_comprehensions(f)) for f in (ac, fc, dfs))
     # all_components
-    loops = [l for l in ac.node.body if isinstance(l, ast.For)]
+    loops = [l for l in ac.node.body if isinstance(l, ast.For) and any(isinstance(c, ast.Call) and isinstance(c.func, ast.Attribute) and c.func.attr == "find_component" for c in ast.walk(l))]
+    if not loops:
+        raise AnalysisError("R15.8", ac.where(), "cannot find the loop of all_components that starts a search per node")
     ok = False
     if loops:
         l = loops[0]
-        it_ok = norm(l.iter) in ("self.nodes", "self.nodes.keys()", "list(self.nodes)")
-        calls = [c for c in ast.walk(l) if isinstance(c, ast.Call) and isinstance(c.func, ast.Attribute) and c.func.attr == "find_component" and norm(c.args[0]) == norm(l.target)]
+        it_ok = norm(l.iter) in ("self.nodes", "self.nodes.keys()", "list(self.nodes)", "self.nodes.items()", "self", "list(self.nodes.keys())")
+        tg = [norm(e) for e in l.target.elts] if isinstance(l.target, ast.Tuple) else [norm(l.target)]
+        key_var = tg[0]
+        calls = [c for c in ast.walk(l) if isinstance(c, ast.Call) and isinstance(c.func, ast.Attribute) and c.func.attr == "find_component" and norm(c.args[0]) == key_var]
         from .c09 import guards_of
 
-        guarded = bool(calls) and any(canon_test(t, pol) == (f"self.nodes[{norm(l.target)}].visited", False) for t, pol in guards_of(ac.node, _stmt_with(ac, calls[0])))
+        flag_txts = {f"self.nodes[{key_var}].visited", f"self[{key_var}].visited"} | ({f"{tg[1]}.visited"} if len(tg) == 2 and norm(l.iter).endswith(".items()") else set())
+        guarded = bool(calls) and any(canon_test(t, pol)[0] in flag_txts and canon_test(t, pol)[1] is False for t, pol in guards_of(ac.node, _stmt_with(ac, calls[0])))
         after = ac.node.body[ac.node.body.index(l) + 1 :]
         reset = any(isinstance(st, ast.Expr) and norm(st.value) in ("self.set_visited(False)", "self.set_visited()", "self.set_visited(visited=False)") for st in after)
         appended = any(isinstance(c, ast.Call) and isinstance(c.func, ast.Attribute) and c.func.attr == "append" and any(x is calls[0] for x in ast.walk(c)) for c in ast.walk(l)) if calls else False
+        if not it_ok or not calls:
+            raise AnalysisError("R15.8", ac.where(l), f"the search loop of all_components iterates `{norm(l.iter)[:40]}` / calls find_component with something else than the loop's node")
         ok = it_ok and guarded and reset and appended
     ctx.check(ok, "R15.8", ac.where(), "all_components searches from every node that is still unvisited, collects each result, and resets the visited flags afterwards (a second call sees a clean graph)", key_of(ac, "all-components-shape"))
     # find_component / dfs: pop -> add to result once -> expand neighbors()
@@ -572,6 +587,18 @@ def r15_8(ctx, g):
                 bad = (p, "a node is expanded without being added to the result")
             if adds and not expanded and p.term in ("fall", "loopback", "continue"):
                 bad = (p, "a node is added to the result but its neighbours are not expanded")
+        src_txt = ""
+        if exp_loops:
+            it_ = exp_loops[0].iter
+            src_txt = norm(it_)
+            if isinstance(it_, ast.Name):
+                d_ = [st for st in w.body if isinstance(st, ast.Assign) and norm(st.targets[0]) == it_.id]
+                src_txt = norm(d_[-1].value) if d_ else src_txt
+        one_sided = cur in src_txt and ((".start" in src_txt) != (".end" in src_txt) or ".children(" in src_txt)
+        if bad is None and not (src_ok and bool(nb_calls)) and one_sided:
+            bad = (paths[0], f"only `{src_txt[:50]}` of the current node is expanded: the neighbours on its other side are never reached")
+        if bad is None and not (src_ok and bool(nb_calls)):
+            raise AnalysisError("R15.8", f.where(w), f"{f.name}: cannot recognise how the neighbours of the current node are pushed to the work list")
         ctx.check(src_ok and bool(nb_calls) and bad is None, "R15.8", f.where(w), f"{f.name}: every node taken from the work list is added to the result once and all its neighbours (both sides, Node.neighbors()) are pushed", key_of(f, f"traversal-shape:{bad[1] if bad else src_ok}"), **({"path": bad[0].show(), "why": bad[1]} if bad else {}))
 
 
